@@ -24,3 +24,89 @@ package fsm
 // The indexer's IndexDoubleSigner carries the precondition "not yet indexed" (assumed contract in
 // /verif/spec/externals.contracts); it is checked at its call site here on every path.
 //@ func (*StateMachine).HandleDoubleSigners
+
+// ---- C04: token supply conservation ------------------------------------------------------------------
+// Abstract state (ghost): what the store holds, seen through the typed accessors.
+//   acctBal(a)  balance of the account with address a      poolBal(id)  balance of pool id
+//   supTotal(s), supStaked(s), supDelegated(s)  the Supply record      stakeOf(a)  stake of validator a
+//   addrOf(x)   the bytes of an address object
+// The accessors (Get/Set of Account, Pool, Supply) are ASSUMED to implement this view (their bodies go
+// through the cache, protobuf and the store interface); everything built on them is CHECKED.
+//@ ghost acctBal(a BSeq) uint64
+//@ ghost poolBal(id int) uint64
+//@ ghost supTotal(s *StateMachine) uint64
+//@ ghost supStaked(s *StateMachine) uint64
+//@ ghost supDelegated(s *StateMachine) uint64
+//@ spec func addrOf(a crypto.AddressI) BSeq
+
+//@ func (*StateMachine).GetAccount
+//@   trusted
+//@   pure
+//@   ensures isnil(result1) ==> result0 != nil && result0.Amount == acctBal(addrOf(address)) && bytes(result0.Address) == addrOf(address)
+//@ func (*StateMachine).SetAccount
+//@   trusted
+//@   modifies ghost(acctBal)
+//@   ensures isnil(result) ==> acctBal() == old(store(acctBal(), bytes(account.Address), account.Amount))
+//@   ensures !isnil(result) ==> acctBal() == old(acctBal())
+//@ func (*StateMachine).AccountSpendableAmount
+//@   trusted
+//@   pure
+//@   ensures result <= account.Amount
+//@ func (*StateMachine).GetPool
+//@   trusted
+//@   pure
+//@   ensures isnil(result1) ==> result0 != nil && fresh(result0) && result0.Amount == poolBal(id) && result0.Id == id
+//@ func (*StateMachine).SetPool
+//@   trusted
+//@   modifies ghost(poolBal)
+//@   ensures isnil(err) ==> poolBal() == old(store(poolBal(), pool.Id, pool.Amount))
+//@   ensures !isnil(err) ==> poolBal() == old(poolBal())
+//@ func (*StateMachine).GetSupply
+//@   trusted
+//@   pure
+//@   ensures isnil(result1) ==> result0 != nil && fresh(result0) && result0.Total == supTotal(s) && result0.Staked == supStaked(s) && result0.DelegatedOnly == supDelegated(s)
+//@ func (*StateMachine).SetSupply
+//@   trusted
+//@   modifies ghost(supTotal), ghost(supStaked), ghost(supDelegated)
+//@   ensures isnil(result) ==> supTotal(s) == supply.Total && supStaked(s) == supply.Staked && supDelegated(s) == supply.DelegatedOnly
+//@   ensures !isnil(result) ==> supTotal(s) == old(supTotal(s)) && supStaked(s) == old(supStaked(s)) && supDelegated(s) == old(supDelegated(s))
+
+// credits and debits move exactly the stated amount, touch exactly one balance, never wrap,
+// and a failing call leaves the balances as they were
+//@ func (*StateMachine).AccountAdd
+//@   ensures[credit] result == nil ==> acctBal() == old(store(acctBal(), addrOf(address), acctBal(addrOf(address)) + amountToAdd))
+//@   ensures[nowrap] result == nil ==> old(acctBal(addrOf(address))) + amountToAdd <= MaxUint64
+//@   ensures[failsafe] result != nil ==> acctBal() == old(acctBal())
+//@   ensures[frame] poolBal() == old(poolBal()) && supTotal(s) == old(supTotal(s))
+//@ func (*StateMachine).AccountSub
+//@   ensures[debit] result == nil ==> acctBal() == old(store(acctBal(), addrOf(address), acctBal(addrOf(address)) - amountToSub))
+//@   ensures[nonneg] result == nil ==> old(acctBal(addrOf(address))) >= amountToSub
+//@   ensures[failsafe] result != nil ==> acctBal() == old(acctBal())
+//@   ensures[frame] poolBal() == old(poolBal()) && supTotal(s) == old(supTotal(s))
+//@ func (*StateMachine).PoolAdd
+//@   ensures[credit] result == nil ==> poolBal() == old(store(poolBal(), id, poolBal(id) + amountToAdd))
+//@   ensures[nowrap] result == nil ==> old(poolBal(id)) + amountToAdd <= MaxUint64
+//@   ensures[failsafe] result != nil ==> poolBal() == old(poolBal())
+//@   ensures[frame] acctBal() == old(acctBal()) && supTotal(s) == old(supTotal(s))
+//@ func (*StateMachine).PoolSub
+//@   ensures[debit] result == nil ==> poolBal() == old(store(poolBal(), id, poolBal(id) - amountToSub))
+//@   ensures[nonneg] result == nil ==> old(poolBal(id)) >= amountToSub
+//@   ensures[failsafe] result != nil ==> poolBal() == old(poolBal())
+//@   ensures[frame] acctBal() == old(acctBal()) && supTotal(s) == old(supTotal(s))
+//@ func (*StateMachine).AddToTotalSupply
+//@   ensures[mint] result == nil ==> supTotal(s) == old(supTotal(s)) + amount
+//@   ensures[nowrap] result == nil ==> old(supTotal(s)) + amount <= MaxUint64
+//@   ensures[failsafe] result != nil ==> supTotal(s) == old(supTotal(s))
+//@   ensures[frame] acctBal() == old(acctBal()) && poolBal() == old(poolBal())
+//@ func (*StateMachine).SubFromTotalSupply
+//@   ensures[burn] result == nil ==> supTotal(s) == old(supTotal(s)) - amount && old(supTotal(s)) >= amount
+//@   ensures[failsafe] result != nil ==> supTotal(s) == old(supTotal(s))
+//@   ensures[frame] acctBal() == old(acctBal()) && poolBal() == old(poolBal())
+// minting creates exactly `amount` in the total and in one balance
+//@ func (*StateMachine).MintToPool
+//@   ensures[mint] result == nil ==> supTotal(s) == old(supTotal(s)) + amount && poolBal() == old(store(poolBal(), id, poolBal(id) + amount)) && acctBal() == old(acctBal())
+//@ func (*StateMachine).MintToAccount
+//@   ensures[mint] result == nil ==> supTotal(s) == old(supTotal(s)) + amount && acctBal() == old(store(acctBal(), addrOf(address), acctBal(addrOf(address)) + amount)) && poolBal() == old(poolBal())
+// fee: one account pays, the chain's reward pool receives, nothing is created or destroyed
+//@ func (*StateMachine).AccountDeductFees
+//@   ensures[moves] result == nil ==> acctBal() == old(store(acctBal(), addrOf(address), acctBal(addrOf(address)) - fee)) && poolBal() == old(store(poolBal(), s.Config.ChainId, poolBal(s.Config.ChainId) + fee)) && supTotal(s) == old(supTotal(s))
